@@ -203,8 +203,8 @@ def _sc_conds(tier, seed):
 
 
 FAMILIES = [
-    Family('law', body_law, ['law', 'param', 'backing', 'n', 'prefix'], XP + QP + RP + [('i', 'int')], _conds, timeout=dict(quick=60, thorough=300),
+    Family('law', body_law, ['law', 'param', 'backing', 'n', 'prefix'], XP + QP + RP + [('i', 'int')], _conds, timeout=dict(quick=150, thorough=300),
            desc='both sides of a law built from real code and observed identically'),
     Family('slice_compose', body_slice_compose, ['backing', 'n', 'f1', 'f2'], [(f'x{i}', 'int') for i in range(4)] + [(c, 'int') for c in 'abcd'] + [('i', 'int')],
-           _sc_conds, timeout=dict(quick=90, thorough=900), desc='nested slices compose like list slices'),
+           _sc_conds, timeout=dict(quick=240, thorough=900), desc='nested slices compose like list slices'),
 ]
